@@ -521,7 +521,10 @@ def run(rep):
                 '(identical distances required in the exact regime); arrays of every kind with elements finite '
                 'in one dimension only that are the extreme there, and every 8th other array, go through index '
                 'histories (fresh -> build_sindex with several page sizes / .sindex, array, GeoSeries, '
-                'GeoDataFrame column: default-bounds distances unchanged and equal to total_bounds=own); '
+                'GeoDataFrame column: default-bounds distances unchanged and equal to total_bounds=own); every '
+                '5th array and all special ones go through repeat-call histories on ONE object (call, modify the '
+                'returned array in place, call again with the same / equal-valued other type / other p / other '
+                'bounds; values = fresh array = model); '
                 'total_bounds default / own / power-of-two '
                 'box / degenerate in x, y, both / reversed / disjoint / inexact, passed as ' +
                 ', '.join(SEQ_FORMS) + '; p in 1..31 (seeded, every value used); one evaluation = one '
@@ -552,6 +555,18 @@ def run(rep):
         if tag == 'partial' or tag in ('nan', 'far', 'single-point') or nhist % 8 == 0:
             sindex_history(rep, rng, {'kind': kind, 'subtype': st, 'elements': els, 'derivation': desc,
                                       'tb_label': 'default', 'tb_form': None, 'tb_values': None}, arr)
+        if tag in ('partial', 'nan', 'single-point') or tag.startswith('offset') or nhist % 5 == 0:
+            def sink(ent, m):
+                cases.append(ent[0]); results.append(ent[1]); metas.append(m)
+            hmeta = {'kind': kind, 'subtype': st, 'elements': els, 'derivation': desc}
+            rp_ = rng.choice([1, 3, 8, 10, 15, 21, 31])
+            repeat_call_history(rep, rng, {**hmeta, 'tb_label': 'default', 'tb_form': None, 'tb_values': None},
+                                arr, bounds, total, None, rp_, sink)
+            if all(math.isfinite(v) for v in total):
+                bx = [math.floor(total[0]) - 1.0, math.floor(total[1]), math.floor(total[0]) + 15.0,
+                      math.floor(total[1]) + 8.0]
+                repeat_call_history(rep, rng, {**hmeta, 'tb_label': 'pow2', 'tb_form': 'tuple', 'tb_values': bx},
+                                    arr, bounds, total, bx, rp_, sink)
         for variant in tb_variants(rng, arr, tag, frame):
             label, vals = variant[0], variant[1]
             pcycle += 1
@@ -876,6 +891,121 @@ def sindex_history(rep, rng, meta, arr, p=None):
                        'series_after': s2, 'frame_before': d1, 'frame_after': d2})
 
 
+def model_entry(arr, bounds, total, tbobj, p, res):
+    """(case, expected result) for the kernel comparison of one call, or None when not modelled"""
+    tbvals = effective_tb(arr, tbobj)
+    s = case_scale(bounds, [v for v in tbvals if math.isfinite(v)] + total)
+    if s > MAX_SCALE_BITS or len(res) != len(bounds) or any(d < 0 for d in res):
+        return None
+    mask = regime_mask(bounds, tbvals, s)
+    return (model_case(arr, bounds, total, tbobj, p, s),
+            (C.Rec('Returned', [C.Some(U.NN(d)) if m else None for d, m in zip(res, mask)]),
+             seq_term(tbobj, s)))
+
+
+def repeat_call_history(rep, rng, meta, arr, bounds, total, vals, p, sink=None):
+    """repeated requests on ONE array object: call, keep the result, modify it in place, call again
+    with the same / an equal-valued but differently typed / a different (total_bounds, p).  Every
+    answer must have the values a fresh array gives (and the model's, via sink); whether successive
+    results share memory is only counted."""
+    from spatialpandas import GeoSeries
+    if len(arr) == 0:
+        return
+    meta = {**meta, 'p': p, 'history': 'repeat'}
+
+    def fresh():
+        return type(arr)(arr.data, dtype=arr.dtype)
+
+    def forms_of(v):
+        if v is None:
+            return [None, tuple(float(x) for x in fresh().total_bounds)]
+        out = [make_seq(f, v) for f in ('tuple', 'list', 'ndarray', 'intlist', 'npscalars')]
+        return [o for o in out if o is not None]
+
+    def expect(tb, q):
+        r, exc, _ = call_impl(fresh(), copy.deepcopy(tb), q)
+        return r if exc is None else 'raised ' + exc
+
+    def spoil(r):
+        """modify a returned array in place"""
+        if not isinstance(r, np.ndarray) or not r.flags.writeable or len(r) == 0:
+            rep.count('optional:result_not_modifiable')
+            return 'none'
+        how = rng.choice(['sort', 'floordiv', 'fill', 'reverse', 'add'])
+        if how == 'sort':
+            r.sort()
+        elif how == 'floordiv':
+            r //= 4
+        elif how == 'fill':
+            r[:] = -1
+        elif how == 'reverse':
+            r[:] = r[::-1].copy()
+        else:
+            r += 1
+        return how
+
+    a = fresh()
+    same_forms = forms_of(vals)
+    other_p = p + 1 if p < 31 else p - 1
+    tb_fin = [float(x) for x in arr.total_bounds]
+    other_vals = [tb_fin[0] - 1.0, tb_fin[1], tb_fin[2] + 3.0, tb_fin[3] + 1.0] \
+        if all(math.isfinite(x) for x in tb_fin) else [0.0, 0.0, 8.0, 8.0]
+    want = expect(same_forms[0], p)
+    if isinstance(want, str):
+        return
+    script = [('first', same_forms[0], p)]
+    script += [('same', same_forms[0], p)]
+    script += [('equal-other-type', f, p) for f in same_forms[1:]]
+    script += [('other-p', same_forms[0], other_p), ('same-again', same_forms[0], p),
+               ('other-bounds', tuple(other_vals), p), ('same-after-other-bounds', same_forms[-1], p)]
+    rep.count('repeat_histories')
+    prev, prev_arr = None, None
+    for step, tb, q in script:
+        try:
+            r = a.hilbert_distance(total_bounds=tb, p=q)
+        except Exception as e:
+            rep.violation(f'raises:{type(e).__name__}', f'hilbert_distance raised {type(e).__name__} on a '
+                                                         f'repeated call ({step})', {**meta, 'step': step})
+            return
+        rep.evaluations += 1
+        got = [int(x) for x in np.asarray(r).tolist()]
+        exp = want if (q == p and step != 'other-bounds') else expect(tb, q)
+        if got != exp:
+            rep.violation('repeat-call', f'a repeated hilbert_distance call on the same array object returns '
+                                         f'wrong values (step {step!r} after the previous result was modified '
+                                         'in place)',
+                          {**meta, 'step': step, 'tb_values': vals, 'impl': got, 'fresh_array': exp,
+                           'previous_result_modified_by': prev})
+            return
+        if sink is not None and step in ('same', 'same-again', 'same-after-other-bounds', 'equal-other-type'):
+            ent = model_entry(a, bounds, total, tb, q, got)
+            if ent is not None:
+                sink(ent, {**meta, 'step': step, 'tb_label': 'repeat:' + step,
+                           'tb_form': type(tb).__name__, 'impl': got})
+        if isinstance(r, np.ndarray) and prev_arr is not None and np.shares_memory(r, prev_arr):
+            rep.count('optional:successive_results_share_memory')
+        prev = spoil(r)
+        prev_arr = r if isinstance(r, np.ndarray) else None
+    # the same through one GeoSeries object
+    s = GeoSeries(fresh())
+    for step in ('series-first', 'series-same'):
+        try:
+            r = s.hilbert_distance(total_bounds=same_forms[0], p=p)
+        except Exception as e:
+            rep.violation(f'raises:{type(e).__name__}', 'GeoSeries.hilbert_distance raised on a repeated call',
+                          {**meta, 'step': step})
+            return
+        rep.evaluations += 1
+        got = [int(x) for x in r.values.tolist()]
+        if got != want:
+            rep.violation('repeat-call', f'a repeated GeoSeries.hilbert_distance call returns wrong values ({step})',
+                          {**meta, 'step': step, 'impl': got, 'fresh_array': want})
+            return
+        v = r.values
+        if isinstance(v, np.ndarray) and v.flags.writeable and len(v):
+            v[:] = -7
+
+
 def series_agrees(rep, meta, arr, tbobj, p, res):
     from spatialpandas import GeoSeries
     r, exc, unchanged = call_impl(arr, tbobj, p, via='series')
@@ -941,6 +1071,8 @@ def replay(rep, rp):
         series_agrees(rep, meta, arr, tbobj, p, res)
         if tbobj is None:
             sindex_history(rep, rep.rng, meta, arr, p)
+        for _ in range(3):
+            repeat_call_history(rep, rep.rng, meta, arr, bounds, total, vals, p)
         for _ in range(6):
             translation(rep, rep.rng, meta, kind, st, els, desc, bounds, tbobj, vals, p, res, mask)
         for f in SEQ_FORMS:
